@@ -18,6 +18,8 @@ pub enum DistProfile {
     Light,
     /// every valid family at every corner admitted by validation
     Wild,
+    /// unbounded / heavy-tailed / enormous values (clamping, C04)
+    Huge,
 }
 
 #[derive(Clone, Copy, Debug, PartialEq, Eq)]
@@ -297,6 +299,42 @@ pub fn dist(profile: DistProfile, u: DistUse) -> BoxedStrategy<DistSpec> {
             3 => valid_dist(),
         ]
         .boxed(),
+        DistProfile::Huge => huge_dist(),
+    }
+}
+
+/// heavy tails, enormous scales, infinite starts, values straddling 24 h
+pub fn huge_dist() -> BoxedStrategy<DistSpec> {
+    let mk = |kind: DistKind, start: f64, max: f64| DistSpec { kind, start: Fx(start), max: Fx(max) };
+    prop_oneof![
+        2 => select(vec![DAY_US - 1.0, DAY_US, DAY_US + 1.0, 2.0 * DAY_US, 1e30, 1e300, f64::MAX, 0.0, 7.0])
+            .prop_map(DistSpec::constant),
+        1 => Just(mk(DistKind::Uniform { low: Fx(0.0), high: Fx(0.0) }, f64::INFINITY, 0.0)),
+        1 => Just(mk(DistKind::Uniform { low: Fx(0.0), high: Fx(f64::MAX) }, 0.0, 0.0)),
+        2 => (0.9f64..1.0, 1.0f64..1.2).prop_map(move |(a, b)| mk(
+            DistKind::Uniform { low: Fx(DAY_US * a), high: Fx(DAY_US * b) }, 0.0, 0.0)),
+        2 => (1e-3f64..0.3).prop_map(move |sh| mk(DistKind::Pareto { scale: Fx(1.0), shape: Fx(sh) }, 0.0, 0.0)),
+        2 => (0.0f64..60.0, 1.0f64..20.0).prop_map(move |(mu, s)| mk(DistKind::LogNormal { mu: Fx(mu), sigma: Fx(s) }, 0.0, 0.0)),
+        1 => Just(mk(DistKind::Normal { mean: Fx(1e300), stdev: Fx(1e299) }, 0.0, 0.0)),
+        1 => Just(mk(DistKind::Poisson { lambda: Fx(1e42) }, 0.0, 0.0)),
+        1 => Just(mk(DistKind::Geometric { probability: Fx(1e-9) }, 0.0, 0.0)),
+        1 => Just(mk(DistKind::Geometric { probability: Fx(0.0) }, 0.0, 0.0)),
+        1 => (1e-3f64..0.2).prop_map(move |sh| mk(DistKind::Weibull { scale: Fx(1e9), shape: Fx(sh) }, 0.0, 0.0)),
+        1 => Just(mk(DistKind::Gamma { scale: Fx(1e300), shape: Fx(10.0) }, 0.0, 0.0)),
+        1 => (1.0f64..1e12).prop_map(move |m| mk(DistKind::Uniform { low: Fx(0.0), high: Fx(f64::MAX) }, 0.0, m)),
+        1 => Just(mk(DistKind::Uniform { low: Fx(5.0), high: Fx(5.0) }, 0.0, f64::INFINITY)),
+    ]
+    .boxed()
+}
+
+/// `proptest::option::weighted` that also accepts the probabilities 0 and 1.
+pub fn opt_w<T: std::fmt::Debug + Clone + 'static>(p: f64, s: impl Strategy<Value = T> + 'static) -> BoxedStrategy<Option<T>> {
+    if p <= 0.0 {
+        Just(None).boxed()
+    } else if p >= 1.0 {
+        s.prop_map(Some).boxed()
+    } else {
+        proptest::option::weighted(p, s).boxed()
     }
 }
 
@@ -385,7 +423,7 @@ fn action_spec(p: &MachineParams) -> BoxedStrategy<ActionSpec> {
     };
     let limit = {
         let l = d(DistUse::Limit);
-        proptest::option::weighted(p.p_limit, l).boxed()
+        opt_w(p.p_limit, l).boxed()
     };
     let w = p.kind_weights;
     let mut arms: Vec<(u32, BoxedStrategy<ActionSpec>)> = vec![];
@@ -549,12 +587,12 @@ pub fn trans_list(n: usize, p: &MachineParams) -> BoxedStrategy<Vec<(usize, Fs)>
 }
 
 pub fn state_spec(n: usize, p: &MachineParams) -> BoxedStrategy<StateSpec> {
-    let action = proptest::option::weighted(p.p_action, action_spec(p));
-    let ca = proptest::option::weighted(p.p_counter, counter_spec(p));
-    let cb = proptest::option::weighted(p.p_counter, counter_spec(p));
+    let action = opt_w(p.p_action, action_spec(p));
+    let ca = opt_w(p.p_counter, counter_spec(p));
+    let cb = opt_w(p.p_counter, counter_spec(p));
     let mut per_event: Vec<BoxedStrategy<Option<Vec<(usize, Fs)>>>> = vec![];
     for e in 0..13 {
-        per_event.push(proptest::option::weighted(p.p_trans[e], trans_list(n, p)).boxed());
+        per_event.push(opt_w(p.p_trans[e], trans_list(n, p)).boxed());
     }
     (action, ca, cb, per_event)
         .prop_map(|(action, counter_a, counter_b, lists)| StateSpec {
